@@ -1,5 +1,10 @@
 (* Model/C16Run.v - case type and checker evaluated on harness-generated cases (C16) *)
-From ReqV Require Export Lib.Bytes Model.HeaderOrder Model.HeaderCollect Model.HeaderMerge.
+From ReqV Require Export Lib.Bytes Model.HeaderOrder Model.HeaderCollect Model.HeaderMerge Model.HeaderSeq.
+
+Inductive seq_outcome :=
+| SSent (obs : list line)    (* the origin's view of that request *)
+| SRefused                   (* refused locally: header list larger than the peer's limit *)
+| SFailed.                   (* an injected connection fault (or its consequence) *)
 
 Inductive c16_case :=
 (* direct call of header.SortKeyValues(kvs, order); the slice afterwards is
@@ -14,7 +19,14 @@ Inductive c16_case :=
    rendered pairs, client-level order registrations) and the header map the protocol writer
    received, sorted by key (an automatic Content-Type removed by the harness) *)
 | MergeCase (req_ops cli_ops : list hdr_op) (cookies : list bytes)
-            (regs_o regs_p : list (list bytes)) (obs : list kv).
+            (regs_o regs_p : list (list bytes)) (obs : list kv)
+(* requests sent one after the other through ONE client (one connection where it survives):
+   per step what the protocol writer received and what became of it.  max = the
+   SETTINGS_MAX_HEADER_LIST_SIZE the HTTP/2 peer advertised *)
+| SeqCase (proto : nat) (max : option N) (steps : list (creq * seq_outcome))
+(* a family of clients made with Clone(): the operations, and per member the header order /
+   pseudo-header order its request carried at the transport *)
+| CloneCase (ops : list fam_op) (members : list (nat * list bytes * list bytes)).
 
 Fixpoint ascending (l : list nat) : bool :=
   match l with
@@ -38,19 +50,38 @@ Definition regular_check (order : list bytes) (exact by_value : bool) (model obs
         let co := map canonical_key order in let n := length order in
         ascending (map (fun x : line => rank_c co n (fst x)) obs)).
 
+Definition wire_check (proto : nat) (q : creq) (obs : list line) : bool :=
+  let order := order_list (c_hdr q) in
+  match proto with
+  | 1 => regular_check order (is_nil order) false (h1_lines q) obs
+  | _ => let m := if proto =? 2 then h2_lines q else h3_lines q in
+         lines_eqb (take_while is_pseudo m) (take_while is_pseudo obs) &&
+         regular_check order false true (drop_while_l is_pseudo m) (drop_while_l is_pseudo obs)
+  end.
+
+(* every step is judged on its own request only: by the theorems of Proofs/HeaderSeqProofs.v the
+   history (refused / failed / sent requests before it) cannot matter *)
+Definition seq_step_check (proto : nat) (max : option N) (st : creq * seq_outcome) : bool :=
+  let refused := (proto =? 2) && h2_refused max (fst st) in
+  match snd st with
+  | SSent obs => negb refused && wire_check proto (fst st) obs
+  | SRefused => refused
+  | SFailed => true
+  end.
+
+Definition clone_member_check (s : fam_state) (m : nat * list bytes * list bytes) : bool :=
+  let regs := nth (fst (fst m)) s [] in
+  list_eqb bytes_eqb (in_force header_order_key (regs_order regs)) (snd (fst m)) &&
+  list_eqb bytes_eqb (in_force pseudo_header_order_key (regs_porder regs)) (snd m).
+
 Definition c16_check (c : c16_case) : bool :=
   match c with
+  | SeqCase proto max steps => forallb (seq_step_check proto max) steps
+  | CloneCase ops members => forallb (clone_member_check (fam_run ops)) members
   | SortCase kvs order perm =>
       list_eqb kv_eqb (sort_key_values kvs order) (map (fun i => nth i kvs ([], [])) perm)
   | CanonCase i o => bytes_eqb (mime_key i) o
   | MergeCase ro co cookies regs_o regs_p obs =>
       list_eqb kv_eqb (sort_by_key (transport_hdr (apply_ops ro) (apply_ops co) cookies regs_o regs_p)) obs
-  | WireCase proto q obs =>
-      let order := order_list (c_hdr q) in
-      match proto with
-      | 1 => regular_check order (is_nil order) false (h1_lines q) obs
-      | _ => let m := if proto =? 2 then h2_lines q else h3_lines q in
-             lines_eqb (take_while is_pseudo m) (take_while is_pseudo obs) &&
-             regular_check order false true (drop_while_l is_pseudo m) (drop_while_l is_pseudo obs)
-      end
+  | WireCase proto q obs => wire_check proto q obs
   end.
